@@ -10,9 +10,12 @@
      WaitBall    suspended in  await self._end_ball_event.wait()
      WaitPlayer  suspended in  await self._at_least_one_player_event.wait()
      Done        _run returned; the mode stops and machine.game becomes None
-   The other awaits of _start_ball (single/multi_player_ball_started, player_N_ball_started, ball_start_target,
-   wait_until_playfields_are_empty) receive no environment operation in the rig and are therefore not
-   suspension points of the model.
+     WaitEmpty   suspended in  await ball_controller.wait_until_playfields_are_empty()  (between ball_will_start
+                 and ball_starting; polls playfield.available_balls > 0 once per second)
+   The other awaits of _start_ball (single/multi_player_ball_started, player_N_ball_started, ball_start_target)
+   receive no environment operation in the rig and are therefore not suspension points of the model.
+   [pf] is playfield.available_balls: owned by the environment (drains, stray balls, lost balls: Drain / PfAdd),
+   incremented by the game's playfield.add_ball() at the end of _start_ball, read by WaitEmpty.
 
    The environment acts only at suspension points, in BATCHES.  A batch is a list of operations that the event
    manager processes in one run of process_event_queue: the operations take effect in order, and the player-add
@@ -27,10 +30,11 @@ Inductive kind :=
 | PTWS | PTSg | PTSd | PTWE | PTEg | PTEd      (* player_turn_will_start .. player_turn_ended *)
 | BWS | BSg | BSd | BWE | BEg | BEd.           (* ball_will_start .. ball_ended *)
 
-Inductive pc_t := AtEv (k : kind) | WaitBall | WaitPlayer | Done.
+Inductive pc_t := AtEv (k : kind) | WaitBall | WaitPlayer | WaitEmpty | Done.
 
 Inductive op :=
-| Drain (n : Z)            (* relay event ball_drain, balls=n (n=0: the ball was saved) *)
+| Drain (n : Z)            (* relay event ball_drain, balls=n (n=0: the ball was saved); the n balls leave the playfield *)
+| PfAdd (d : Z)            (* playfield.available_balls += d: stray ball rolls into the drain (d<0), ball found / lost (d>0) *)
 | AddBip (d : Z)           (* game.balls_in_play += d  (multiball, lost locked balls, ...) *)
 | EndBall                  (* game.end_ball() / event end_ball *)
 | EndGame                  (* game.end_game() / event end_game *)
@@ -58,34 +62,39 @@ Record st := mkst {
   rels : list nat;              (* player_adding queues cleared in this batch; their callbacks run after the batch *)
   pev : bool;                   (* _at_least_one_player_event.is_set() *)
   xb : bool;                    (* is_extra_ball of the ball being run *)
-  active : bool                 (* machine.game is not None *)
+  active : bool;                (* machine.game is not None *)
+  pf : Z                        (* playfield.available_balls (environment-owned; +1 by add_ball at every ball start) *)
 }.
 
 Inductive out :=
 | Ev (k : kind) (p b : nat) (x : bool) (bp : Z) (np : nat)
     (* event k posted; p = player number (0 none), b = that player's ball variable, x = is_extra_ball (ball start
        events), bp = balls_in_play and np = len(player_list) when the event's handlers run *)
-| Idle (bp : Z) (np : nat)    (* the game is still waiting after an idle batch *)
+| Idle (bp : Z) (np : nat) (pfb : Z)   (* the game is still waiting after an idle batch; pfb = playfield.available_balls *)
 | Award (p : nat)             (* an AwardExtra operation credited player p (0: nobody) *)
+| OpObs (code : Z) (bp : Z)   (* one per environment operation: code 1 = end_ball request, 2 = end_game request,
+                                 3 = slam tilt while the game is not ending (requests the ball end), 4 = slam tilt while
+                                 ending, 0 = any other operation; bp = balls_in_play after the operation *)
 | Fin.                        (* the coroutine returned *)
 
 (* ------------------------------------------------------------------------------------------- *)
 (* setters *)
-Definition set_pc v s := mkst v (players s) (cur s) (bip s) (endev s) (ending s) (slam s) (tactive s) (drainh s) (pending s) (heldq s) (rels s) (pev s) (xb s) (active s).
-Definition set_players v s := mkst (pc s) v (cur s) (bip s) (endev s) (ending s) (slam s) (tactive s) (drainh s) (pending s) (heldq s) (rels s) (pev s) (xb s) (active s).
-Definition set_cur v s := mkst (pc s) (players s) v (bip s) (endev s) (ending s) (slam s) (tactive s) (drainh s) (pending s) (heldq s) (rels s) (pev s) (xb s) (active s).
-Definition set_bipraw v s := mkst (pc s) (players s) (cur s) v (endev s) (ending s) (slam s) (tactive s) (drainh s) (pending s) (heldq s) (rels s) (pev s) (xb s) (active s).
-Definition set_endev v s := mkst (pc s) (players s) (cur s) (bip s) v (ending s) (slam s) (tactive s) (drainh s) (pending s) (heldq s) (rels s) (pev s) (xb s) (active s).
-Definition set_ending v s := mkst (pc s) (players s) (cur s) (bip s) (endev s) v (slam s) (tactive s) (drainh s) (pending s) (heldq s) (rels s) (pev s) (xb s) (active s).
-Definition set_slam v s := mkst (pc s) (players s) (cur s) (bip s) (endev s) (ending s) v (tactive s) (drainh s) (pending s) (heldq s) (rels s) (pev s) (xb s) (active s).
-Definition set_tactive v s := mkst (pc s) (players s) (cur s) (bip s) (endev s) (ending s) (slam s) v (drainh s) (pending s) (heldq s) (rels s) (pev s) (xb s) (active s).
-Definition set_drainh v s := mkst (pc s) (players s) (cur s) (bip s) (endev s) (ending s) (slam s) (tactive s) v (pending s) (heldq s) (rels s) (pev s) (xb s) (active s).
-Definition set_pending v s := mkst (pc s) (players s) (cur s) (bip s) (endev s) (ending s) (slam s) (tactive s) (drainh s) v (heldq s) (rels s) (pev s) (xb s) (active s).
-Definition set_heldq v s := mkst (pc s) (players s) (cur s) (bip s) (endev s) (ending s) (slam s) (tactive s) (drainh s) (pending s) v (rels s) (pev s) (xb s) (active s).
-Definition set_rels v s := mkst (pc s) (players s) (cur s) (bip s) (endev s) (ending s) (slam s) (tactive s) (drainh s) (pending s) (heldq s) v (pev s) (xb s) (active s).
-Definition set_pev v s := mkst (pc s) (players s) (cur s) (bip s) (endev s) (ending s) (slam s) (tactive s) (drainh s) (pending s) (heldq s) (rels s) v (xb s) (active s).
-Definition set_xb v s := mkst (pc s) (players s) (cur s) (bip s) (endev s) (ending s) (slam s) (tactive s) (drainh s) (pending s) (heldq s) (rels s) (pev s) v (active s).
-Definition set_active v s := mkst (pc s) (players s) (cur s) (bip s) (endev s) (ending s) (slam s) (tactive s) (drainh s) (pending s) (heldq s) (rels s) (pev s) (xb s) v.
+Definition set_pc v s := mkst v (players s) (cur s) (bip s) (endev s) (ending s) (slam s) (tactive s) (drainh s) (pending s) (heldq s) (rels s) (pev s) (xb s) (active s) (pf s).
+Definition set_players v s := mkst (pc s) v (cur s) (bip s) (endev s) (ending s) (slam s) (tactive s) (drainh s) (pending s) (heldq s) (rels s) (pev s) (xb s) (active s) (pf s).
+Definition set_cur v s := mkst (pc s) (players s) v (bip s) (endev s) (ending s) (slam s) (tactive s) (drainh s) (pending s) (heldq s) (rels s) (pev s) (xb s) (active s) (pf s).
+Definition set_bipraw v s := mkst (pc s) (players s) (cur s) v (endev s) (ending s) (slam s) (tactive s) (drainh s) (pending s) (heldq s) (rels s) (pev s) (xb s) (active s) (pf s).
+Definition set_endev v s := mkst (pc s) (players s) (cur s) (bip s) v (ending s) (slam s) (tactive s) (drainh s) (pending s) (heldq s) (rels s) (pev s) (xb s) (active s) (pf s).
+Definition set_ending v s := mkst (pc s) (players s) (cur s) (bip s) (endev s) v (slam s) (tactive s) (drainh s) (pending s) (heldq s) (rels s) (pev s) (xb s) (active s) (pf s).
+Definition set_slam v s := mkst (pc s) (players s) (cur s) (bip s) (endev s) (ending s) v (tactive s) (drainh s) (pending s) (heldq s) (rels s) (pev s) (xb s) (active s) (pf s).
+Definition set_tactive v s := mkst (pc s) (players s) (cur s) (bip s) (endev s) (ending s) (slam s) v (drainh s) (pending s) (heldq s) (rels s) (pev s) (xb s) (active s) (pf s).
+Definition set_drainh v s := mkst (pc s) (players s) (cur s) (bip s) (endev s) (ending s) (slam s) (tactive s) v (pending s) (heldq s) (rels s) (pev s) (xb s) (active s) (pf s).
+Definition set_pending v s := mkst (pc s) (players s) (cur s) (bip s) (endev s) (ending s) (slam s) (tactive s) (drainh s) v (heldq s) (rels s) (pev s) (xb s) (active s) (pf s).
+Definition set_heldq v s := mkst (pc s) (players s) (cur s) (bip s) (endev s) (ending s) (slam s) (tactive s) (drainh s) (pending s) v (rels s) (pev s) (xb s) (active s) (pf s).
+Definition set_rels v s := mkst (pc s) (players s) (cur s) (bip s) (endev s) (ending s) (slam s) (tactive s) (drainh s) (pending s) (heldq s) v (pev s) (xb s) (active s) (pf s).
+Definition set_pev v s := mkst (pc s) (players s) (cur s) (bip s) (endev s) (ending s) (slam s) (tactive s) (drainh s) (pending s) (heldq s) (rels s) v (xb s) (active s) (pf s).
+Definition set_xb v s := mkst (pc s) (players s) (cur s) (bip s) (endev s) (ending s) (slam s) (tactive s) (drainh s) (pending s) (heldq s) (rels s) (pev s) v (active s) (pf s).
+Definition set_active v s := mkst (pc s) (players s) (cur s) (bip s) (endev s) (ending s) (slam s) (tactive s) (drainh s) (pending s) (heldq s) (rels s) (pev s) (xb s) v (pf s).
+Definition set_pf v s := mkst (pc s) (players s) (cur s) (bip s) (endev s) (ending s) (slam s) (tactive s) (drainh s) (pending s) (heldq s) (rels s) (pev s) (xb s) (active s) v.
 
 Definition np (s : st) : nat := length (players s).
 Definition pl (s : st) : nat * nat := nth (cur s - 1) (players s) (0%nat, 0%nat).
@@ -123,21 +132,30 @@ Definition gate (v : variant) (c : cfg) (s : st) : bool :=
   | _ => negb (1 <? pball s + (if fix_gate v && negb (tactive s) then 1 else 0))%nat
   end.
 
-Definition apply_op (v : variant) (c : cfg) (s : st) (o : op) : st * list out :=
+Definition op_st (v : variant) (c : cfg) (s : st) (o : op) : st :=
   match o with
-  | Drain n => (if drainh s && negb (n =? 0) then set_bip c (bip s - n) s else s, [])
-  | AddBip d => (set_bip c (bip s + d) s, [])
-  | EndBall => (set_endev true s, [])
-  | EndGame => (set_endev true (set_ending true s), [])
-  | SlamTilt => (let s1 := set_slam true s in if ending s then s1 else set_endev true s1, [])
-  | AddPlayerReq a => (if gate v c s && a then set_pending (S (pending s)) s else s, [])
+  | Drain n => set_pf (pf s - n) (if drainh s && negb (n =? 0) then set_bip c (bip s - n) s else s)
+  | PfAdd d => set_pf (pf s + d) s
+  | AddBip d => set_bip c (bip s + d) s
+  | EndBall => set_endev true s
+  | EndGame => set_endev true (set_ending true s)
+  | SlamTilt => let s1 := set_slam true s in if ending s then s1 else set_endev true s1
+  | AddPlayerReq a => if gate v c s && a then set_pending (S (pending s)) s else s
   | ReleaseAdd newest =>
-      (match (if newest then rev (heldq s) else heldq s) with
-       | [] => s
-       | k :: q => set_rels (rels s ++ [k]) (set_heldq (if newest then rev q else q) s)
-       end, [])
-  | AwardExtra => (upd_cur (fun be => (fst be, S (snd be))) s, [Award (cur s)])
+      match (if newest then rev (heldq s) else heldq s) with
+      | [] => s
+      | k :: q => set_rels (rels s ++ [k]) (set_heldq (if newest then rev q else q) s)
+      end
+  | AwardExtra => upd_cur (fun be => (fst be, S (snd be))) s
   end.
+
+Definition opcode (s : st) (o : op) : Z :=
+  match o with EndBall => 1 | EndGame => 2 | SlamTilt => if ending s then 4 else 3 | _ => 0 end.
+
+(* every operation is followed by an observation of balls_in_play *)
+Definition apply_op (v : variant) (c : cfg) (s : st) (o : op) : st * list out :=
+  (op_st v c s o,
+   match o with AwardExtra => [Award (cur s)] | _ => [] end ++ [OpObs (opcode s o) (bip (op_st v c s o))]).
 
 (* the callback chains of the accepted requests run: the players are created (numbered in order).  Without a
    player_adding handler they are added at once; otherwise their queues stay open ([heldq]).  Then the callbacks of
@@ -220,9 +238,10 @@ Definition advance (v : variant) (c : cfg) (s : st) : st * list out :=
   | AtEv PTWS => goto PTSg s
   | AtEv PTSg => goto PTSd (set_tactive true (upd_cur (fun be => (S (fst be), snd be)) s))
   | AtEv PTSd => run_ball false s
-  | AtEv BWS => goto BSg s
+  | AtEv BWS => if 0 <? pf s then (set_pc WaitEmpty s, []) else goto BSg s
+  | WaitEmpty => goto BSg s
   | AtEv BSg => goto BSd (set_bip c 1 (set_drainh true s))
-  | AtEv BSd => await_end s
+  | AtEv BSd => await_end (set_pf (pf s + 1) s)     (* playfield.add_ball() at the end of _start_ball *)
   | WaitBall => await_end s
   | AtEv BWE => goto BEg s
   | AtEv BEg => goto BEd s
@@ -262,18 +281,24 @@ Definition step_g (v : variant) (c : cfg) (s : st) (i : input) : st * list out :
   | WaitBall =>
       let (s1, o1) := batch v c s (idle_ops i) in
       if endev s1 then let (s3, o3) := advance v c s1 in (s3, o1 ++ o3)
-      else (s1, o1 ++ [Idle (bip s1) (np s1)])
+      else (s1, o1 ++ [Idle (bip s1) (np s1) (pf s1)])
   | WaitPlayer =>
       let (s1, o1) := batch v c s (idle_ops i) in
       if wait_player_ready v s1 then let (s3, o3) := advance v c s1 in (s3, o1 ++ o3)
-      else (s1, o1 ++ [Idle (bip s1) (np s1)])
+      else (s1, o1 ++ [Idle (bip s1) (np s1) (pf s1)])
+  | WaitEmpty =>
+      (* wait_until_playfields_are_empty: "if playfield.available_balls > 0: found_balls = True" *)
+      let (s1, o1) := batch v c s (idle_ops i) in
+      if pf s1 <=? 0 then let (s3, o3) := advance v c s1 in (s3, o1 ++ o3)
+      else (s1, o1 ++ [Idle (bip s1) (np s1) (pf s1)])
   end.
 
 Definition step := step_g fixed.
 
 Definition init : st :=
-  mkst (AtEv GWS) [] 0%nat 0 false false false false false 0%nat [] [] false false true.
+  mkst (AtEv GWS) [] 0%nat 0 false false false false false 0%nat [] [] false false true 0.
 Definition out0 : list out := [Ev GWS 0%nat 0%nat false 0 0%nat].
+(* (out0 is the game_will_start event posted by the prologue of _run; balls_in_play = 0 and no players then) *)
 
 Fixpoint steps_g (v : variant) (c : cfg) (s : st) (ins : list input) : st * list out :=
   match ins with
@@ -288,6 +313,26 @@ Definition trace (c : cfg) (ins : list input) : list out := out0 ++ snd (steps c
 Definition trace_unfixed (c : cfg) (ins : list input) : list out := out0 ++ snd (steps_g unfixed c init ins).
 
 (* ------------------------------------------------------------------------------------------- *)
+(* several games on the same Game mode object.  Game._run starts with an explicit re-initialisation of the object's
+   fields (player, player_list, machine.game, slam_tilted, tilted, ending, num_players, _balls_in_play,
+   _player_turn_active, two fresh asyncio.Events); it does NOT touch the ball_drain handler registration, the
+   player-add chains in flight (pending / heldq / rels) or the playfield.  [start_game] is that prologue. *)
+Definition start_game (s : st) : st :=
+  set_pc (AtEv GWS) (set_active true (set_xb false (set_pev false (set_endev false (set_tactive false
+    (set_bipraw 0 (set_ending false (set_slam false (set_players [] (set_cur 0%nat s)))))))))).
+
+(* the mode object before its first game *)
+Definition boot : st := set_active false (set_pc Done init).
+
+Fixpoint games (s : st) (gs : list (cfg * list input)) : list out :=
+  match gs with
+  | [] => []
+  | (c, ins) :: gs' =>
+      let (s1, o1) := steps c (start_game s) ins in
+      out0 ++ o1 ++ match pc s1 with Done => games s1 gs' | _ => [] end
+  end.
+
+(* ------------------------------------------------------------------------------------------- *)
 (* canonical encoding for the correspondence run *)
 Definition kcode (k : kind) : Z :=
   match k with
@@ -299,11 +344,12 @@ Definition b2z (b : bool) : Z := if b then 1 else 0.
 Definition enc (o : out) : list Z :=
   match o with
   | Ev k p b x bp n => [1; kcode k; Z.of_nat p; Z.of_nat b; b2z x; bp; Z.of_nat n]
-  | Idle bp n => [2; bp; Z.of_nat n]
+  | Idle bp n f => [2; bp; Z.of_nat n; f]
+  | OpObs k bp => [5; k; bp]
   | Award p => [3; Z.of_nat p]
   | Fin => [4]
   end.
 
 Definition cfgz (b m k : Z) (own ownheld : bool) : cfg := mkcfg (Z.to_nat b) (Z.to_nat m) k own ownheld.
-Definition run (ci : cfg * list input) : list (list Z) := map enc (trace (fst ci) (snd ci)).
+Definition run (gs : list (cfg * list input)) : list (list Z) := map enc (games boot gs).
 Definition out_eqb : list (list Z) -> list (list Z) -> bool := zss_eqb.
